@@ -10,12 +10,14 @@ import Driver.CoreCmd
 import Driver.RewriteCmd
 import Driver.FunctorCmd
 import Driver.CartesianCmd
+import Driver.WiresCmd
 
 def handlers : List (String → List String → Option String) :=
   [ DV.CoreCmd.handle
   , DV.RewriteCmd.handle
   , DV.FunctorCmd.handle
   , DV.CartCmd.handle
+  , DV.WiresCmd.handle
   ]
 
 def handle (line : String) : String :=
